@@ -7,7 +7,7 @@ use flatty_base::{
     emplacer::Emplacer,
     error::{Error, ErrorKind},
     traits::{Flat, FlatBase, FlatDefault, FlatSized, FlatUnsized, FlatValidate},
-    utils::{floor_mul, max, mem::slice_ptr_len},
+    utils::{ceil_mul, floor_mul, max, mem::slice_ptr_len},
 };
 use stavec::GenericVec;
 
@@ -119,7 +119,8 @@ where
         ptr::slice_from_raw_parts_mut(bytes as *mut u8, meta) as *mut Self
     }
     unsafe fn ptr_to_bytes(this: *mut Self) -> *mut [u8] {
-        let len = Self::DATA_OFFSET + slice_ptr_len(this as *mut [T]) * T::SIZE;
+        // Like `size_of_val`, includes padding after the last slot (`T::SIZE` may be not a multiple of `Self::ALIGN`).
+        let len = ceil_mul(Self::DATA_OFFSET + slice_ptr_len(this as *mut [T]) * T::SIZE, Self::ALIGN);
         ptr::slice_from_raw_parts_mut(this as *mut u8, len)
     }
 }
